@@ -1110,18 +1110,29 @@ void process_option_line(const std::string &config_line, const char *filename,
    else if (cmd == "using")
    {
       auto vargs = split_args(args[1], filename, is_varg_sep);
+      bool ok    = false;
 
-      if (vargs.size() == 2)
+      try
       {
-         compat_level = option_level(std::stoi(vargs[0]), std::stoi(vargs[1]));
+         if (vargs.size() == 2)
+         {
+            compat_level = option_level(std::stoi(vargs[0]), std::stoi(vargs[1]));
+            ok           = true;
+         }
+         else if (vargs.size() == 3)
+         {
+            compat_level = option_level(std::stoi(vargs[0]),
+                                        std::stoi(vargs[1]),
+                                        std::stoi(vargs[2]));
+            ok = true;
+         }
       }
-      else if (vargs.size() == 3)
+      catch (const std::exception &)
       {
-         compat_level = option_level(std::stoi(vargs[0]),
-                                     std::stoi(vargs[1]),
-                                     std::stoi(vargs[2]));
+         // not a number, or out of range for int
       }
-      else
+
+      if (!ok)
       {
          OptionWarning w{ filename };
          w("%s requires a version number in the form MAJOR.MINOR[.PATCH]",
